@@ -108,35 +108,54 @@ Section RuleProofs.
   Lemma upd_length0 : forall l k f, length (upd l k f) = length l.
   Proof. induction l as [|x l IH]; intros [|k] f; cbn [upd length]; try reflexivity; rewrite IH; reflexivity. Qed.
 
-  Lemma do_inserts_measure : forall acts l pos hw hp l1 pos1 hw1 hp1, do_inserts adv acts l pos hw hp = (l1, pos1, hw1, hp1) ->
-    (length l1 - pos1 = length l - pos)%nat /\ (pos <= length l -> pos1 <= length l1)%nat /\ (length l <= length l1)%nat /\ (length l1 - length l = pos1 - pos)%nat /\ (pos <= pos1)%nat.
+  Definition bud_le (b1 b : option nat) (used : nat) : Prop :=
+    match b, b1 with Some n, Some n1 => (n1 + used <= n)%nat | None, None => True | _, _ => False end.
+  Lemma do_inserts_measure : forall acts l pos hw hp b l1 pos1 hw1 hp1 b1 dead, do_inserts adv acts l pos hw hp b = (l1, pos1, hw1, hp1, b1, dead) ->
+    (length l1 - pos1 = length l - pos)%nat /\ (pos <= length l -> pos1 <= length l1)%nat /\ (length l <= length l1)%nat /\ (length l1 - length l = pos1 - pos)%nat /\ (pos <= pos1)%nat
+    /\ bud_le b1 b (length l1 - length l) /\ (b = None -> dead = false).
   Proof.
-    induction acts as [|a rest IH]; intros l pos hw hp l1 pos1 hw1 hp1 H; cbn [RuleModel.do_inserts] in H.
-    - injection H as <- <- <- <-. lia.
-    - destruct a; try exact (IH _ _ _ _ _ _ _ _ H).
-      specialize (IH _ _ _ _ _ _ _ _ H). rewrite insert_at_length in IH. lia.
+    induction acts as [|a rest IH]; intros l pos hw hp b l1 pos1 hw1 hp1 b1 dead H; cbn [RuleModel.do_inserts] in H.
+    - injection H as <- <- <- <- <- <-. do 5 (split; [lia|]). split; [destruct b; cbn; [lia|exact I] | reflexivity].
+    - destruct a; try exact (IH _ _ _ _ _ _ _ _ _ _ _ H).
+      destruct b as [n|].
+      + destruct (Nat.leb_spec n 1) as [Hn|Hn].
+        * injection H as <- <- <- <- <- <-. do 5 (split; [lia|]). split; [cbn; lia | discriminate].
+        * specialize (IH _ _ _ _ _ _ _ _ _ _ _ H). rewrite insert_at_length in IH. destruct IH as [I1 [I2 [I3 [I4 [I5 [I6 I7]]]]]].
+          do 5 (split; [lia|]). split; [unfold bud_le in *; destruct b1 as [n1|]; [lia|exact I6] | discriminate].
+      + specialize (IH _ _ _ _ _ _ _ _ _ _ _ H). rewrite insert_at_length in IH. destruct IH as [I1 [I2 [I3 [I4 [I5 [I6 I7]]]]]].
+        do 5 (split; [lia|]). split; [exact I6 | exact I7].
   Qed.
 
-  Lemma do_item_measure r orig dn j acts l pos hw hp l1 pos1 hw1 hp1 dn1 :
-    do_item adv r orig dn j acts l pos hw hp = (l1, pos1, hw1, hp1, dn1) -> (pos < length l)%nat ->
+  Lemma do_item_measure r orig dn j acts l pos hw hp b l1 pos1 hw1 hp1 dn1 b1 :
+    do_item adv r orig dn j acts l pos hw hp b = (l1, pos1, hw1, hp1, dn1, b1, false) -> (pos < length l)%nat ->
     (S (length l1 - pos1) = length l - pos)%nat /\ (pos1 <= length l1)%nat.
   Proof.
-    unfold RuleModel.do_item. destruct (do_inserts adv acts l pos hw hp) as [[[la pa] ha] hpa] eqn:Ei.
-    destruct (do_inserts_measure _ _ _ _ _ _ _ _ _ Ei) as [M1 [M2 [M3 [M4 M5]]]].
-    destruct (has_delete acts); intros H Hp; injection H as <- <- <- <- <-.
+    unfold RuleModel.do_item. destruct (do_inserts adv acts l pos hw hp b) as [[[[[la pa] ha] hpa] ba] da] eqn:Ei.
+    destruct (do_inserts_measure _ _ _ _ _ _ _ _ _ _ _ _ Ei) as [M1 [M2 [M3 [M4 [M5 _]]]]].
+    destruct da; [intros H; discriminate H|].
+    destruct (has_delete acts); intros H Hp; injection H as <- <- <- <- <- <-.
     - match goal with |- context [remove_at ?u pa] => pose proof (remove_at_length u pa) as R end. rewrite upd_length0 in R. specialize (R ltac:(lia)). lia.
     - rewrite upd_length0. lia.
   Qed.
+  Lemma do_item_alive r orig dn j acts l pos hw hp l1 pos1 hw1 hp1 dn1 b1 dead :
+    do_item adv r orig dn j acts l pos hw hp None = (l1, pos1, hw1, hp1, dn1, b1, dead) -> dead = false /\ b1 = None.
+  Proof.
+    unfold RuleModel.do_item. destruct (do_inserts adv acts l pos hw hp None) as [[[[[la pa] ha] hpa] ba] da] eqn:Ei.
+    destruct (do_inserts_measure _ _ _ _ _ _ _ _ _ _ _ _ Ei) as [_ [_ [_ [_ [_ [M6 M7]]]]]]. rewrite (M7 eq_refl).
+    assert (ba = None) as -> by (destruct ba; [destruct M6|reflexivity]).
+    destruct (has_delete acts); intros H; injection H as <- <- <- <- <- <- <-; split; reflexivity.
+  Qed.
 
-  Lemma do_items_measure r orig : forall n dn j acts l pos hw hp l1 pos1 hw1 hp1,
-    do_items adv r orig dn j n acts l pos hw hp = (l1, pos1, hw1, hp1) -> (pos + n <= length l)%nat ->
+  Lemma do_items_measure r orig : forall n dn j acts l pos hw hp l1 pos1 hw1 hp1 b1 dead,
+    do_items adv r orig dn j n acts l pos hw hp None = (l1, pos1, hw1, hp1, b1, dead) -> (pos + n <= length l)%nat ->
     (length l1 - pos1 + n = length l - pos)%nat /\ (pos1 <= length l1)%nat.
   Proof.
-    induction n as [|n IH]; intros dn j acts l pos hw hp l1 pos1 hw1 hp1 H Hp; cbn [RuleModel.do_items] in H.
-    - injection H as <- <- <- <-. lia.
-    - destruct (do_item adv r orig dn j (match acts with a :: _ => a | [] => [] end) l pos hw hp) as [[[[la pa] ha] hpa] da] eqn:Ed.
-      destruct (do_item_measure _ _ _ _ _ _ _ _ _ _ _ _ _ _ Ed ltac:(lia)) as [D1 D2].
-      specialize (IH _ _ _ _ _ _ _ _ _ _ _ H ltac:(lia)). lia.
+    induction n as [|n IH]; intros dn j acts l pos hw hp l1 pos1 hw1 hp1 b1 dead H Hp; cbn [RuleModel.do_items] in H.
+    - injection H as <- <- <- <- <- <-. lia.
+    - destruct (do_item adv r orig dn j (match acts with a :: _ => a | [] => [] end) l pos hw hp None) as [[[[[[la pa] ha] hpa] da] ba] dd] eqn:Ed.
+      destruct (do_item_alive _ _ _ _ _ _ _ _ _ _ _ _ _ _ _ _ Ed) as [-> ->].
+      destruct (do_item_measure _ _ _ _ _ _ _ _ _ _ _ _ _ _ _ _ Ed ltac:(lia)) as [D1 D2].
+      specialize (IH _ _ _ _ _ _ _ _ _ _ _ _ _ H ltac:(lia)). lia.
   Qed.
 
   Lemma fire_progress r l i l' i' : rule_matches r l i = true -> fire r l i = (l', i') ->
@@ -144,8 +163,8 @@ Section RuleProofs.
   Proof.
     unfold rule_matches, RuleModel.fire. intros Hm E. apply andb_prop in Hm. destruct Hm as [Hm _]. apply andb_prop in Hm. destruct Hm as [Hm H3]. apply andb_prop in Hm. destruct Hm as [H1 H2].
     apply Nat.leb_le in H1. apply Nat.ltb_lt in H2. apply matches_from_length in H3. rewrite skipn_length in H3. unfold r_sort in *.
-    destruct (do_items adv r _ _ _ _ _ l i None false) as [[[la pa] ha] hpa] eqn:Ed. injection E as <- <-.
-    destruct (do_items_measure _ _ _ _ _ _ _ _ _ _ _ _ _ _ Ed ltac:(lia)) as [D1 D2]. lia.
+    destruct (do_items adv r _ _ _ _ _ l i None false None) as [[[[[la pa] ha] hpa] ba] da] eqn:Ed. injection E as <- <-.
+    destruct (do_items_measure _ _ _ _ _ _ _ _ _ _ _ _ _ _ _ _ Ed ltac:(lia)) as [D1 D2]. lia.
   Qed.
 
   (* positioning passes keep the length of the stream *)
